@@ -311,3 +311,186 @@ func H_C06_loose_nested(kind, _ int) {
 	check(vsame(normHTML(got), normHTML(want)), "C06.loose-nested")
 	vdigest(got)
 }
+
+func escAttrByte(dst []byte, c byte) []byte {
+	switch c {
+	case '&':
+		return append(dst, "&amp;"...)
+	case '<':
+		return append(dst, "&lt;"...)
+	case '>':
+		return append(dst, "&gt;"...)
+	case '"':
+		return append(dst, "&#34;"...)
+	case '\'':
+		return append(dst, "&#39;"...)
+	}
+	return append(dst, c)
+}
+
+// H_C06_esc_ctx(k, ctx): "backslash-escaping every punctuation character of a text
+// yields that text literally" in every place where CommonMark processes backslash
+// escapes, not only in paragraph text: k arbitrary ASCII punctuation bytes, each
+// backslash-escaped, between the letters a and b, placed in
+//   0 a double-quoted inline link title      1 a single-quoted definition title
+//   2 a parenthesised image title            3 link text
+//   4 the info string of a tilde fence       5 emphasis content
+//   6 ATX heading content                    7 a <...> link destination
+// Expected: the k characters themselves, escaped for HTML text / attribute context
+// (the destination additionally percent-encoded by the reference normaliser of C10).
+func H_C06_esc_ctx(k, ctx int) {
+	var md, text, attr, raw []byte
+	md = append(md, 'a')
+	text, attr, raw = append(text, 'a'), append(attr, 'a'), append(raw, 'a')
+	for i := 0; i < k; i++ {
+		p := nondetByte()
+		assume(classOK(p, 'P'))
+		md = append(md, '\\', p)
+		text = escText(text, p)
+		attr = escAttrByte(attr, p)
+		raw = append(raw, p)
+	}
+	md = append(md, 'b')
+	text, attr, raw = append(text, 'b'), append(attr, 'b'), append(raw, 'b')
+	var doc, want []byte
+	switch ctx {
+	case 0:
+		doc = append(append(append(doc, "[x](/u \""...), md...), "\")\n"...)
+		want = append(append(append(want, "<p><a href=\"/u\" title=\""...), attr...), "\">x</a></p>"...)
+	case 1:
+		doc = append(append(append(doc, "[x]\n\n[x]: /u '"...), md...), "'\n"...)
+		want = append(append(append(want, "<p><a href=\"/u\" title=\""...), attr...), "\">x</a></p>"...)
+	case 2:
+		doc = append(append(append(doc, "![x](/u ("...), md...), "))\n"...)
+		want = append(append(append(want, "<p><img src=\"/u\" title=\""...), attr...), "\" alt=\"x\"></p>"...)
+	case 3:
+		doc = append(append(append(doc, '['), md...), "](/u)\n"...)
+		want = append(append(append(want, "<p><a href=\"/u\">"...), text...), "</a></p>"...)
+	case 4:
+		doc = append(append(append(doc, "~~~ "...), md...), "\nx\n~~~\n"...)
+		want = append(append(append(want, "<pre><code class=\"language-"...), attr...), "\">x\n</code></pre>"...)
+	case 5:
+		doc = append(append(append(doc, '*'), md...), "*\n"...)
+		want = append(append(append(want, "<p><em>"...), text...), "</em></p>"...)
+	case 6:
+		doc = append(append(append(doc, "# "...), md...), '\n')
+		want = append(append(append(want, "<h1>"...), text...), "</h1>"...)
+	default:
+		doc = append(append(append(doc, "[x](<"...), md...), ">)\n"...)
+		want = append(want, "<p><a href=\""...)
+		for _, c := range []byte(refNormalizeURI(string(raw))) {
+			want = escAttrByte(want, c)
+		}
+		want = append(want, "\">x</a></p>"...)
+	}
+	blocks, refs := Parse(cloneBytes(doc))
+	got := renderWith(&HTMLRenderer{ReferenceMap: refs}, blocks)
+	// (a reference definition renders as nothing, but still takes part in the
+	// blank-line join of the block list: compare modulo inter-block line endings)
+	if !vsame(normHTML(got), normHTML(want)) {
+		vnote("doc=" + string(doc))
+		vnote("got=" + string(got))
+		vnote("want=" + string(want))
+	}
+	check(vsame(normHTML(got), normHTML(want)), "C06.escapes-literal.context")
+	vdigest(got)
+}
+
+// H_C06_markertab(form, _): a TAB between a list marker and the item's content, with
+// the list at a container content column that is not a multiple of four. The first
+// line is
+//   P  M  k spaces  TAB  "foo"          (M is "-" or "7.", k in 0..1: solver variables)
+// behind container prefix P (form 0 none, 1 "> ", 2 ">", 3 "- ", 4 "1. ", 5 " > "),
+// followed by a blank line and a line "bar" indented - relative to the container - by
+// the item's content offset W+N (d = 0) or by one column less (d = -1), where N is the
+// width of the whitespace after the marker with the tab expanded to the next ABSOLUTE
+// tab stop (1..4 columns: that is N; 5 or more: N = 1 and the rest belongs to an
+// indented code block), as CommonMark 0.30 sections 2.2 and 5.2 say. With d = 0 "bar"
+// is a second paragraph of the item, with d = -1 it follows the list.
+func H_C06_markertab(form, _ int) {
+	prefix := []string{"", "> ", ">", "- ", "1. ", " > "}[form]
+	cont := []string{"", "> ", "> ", "  ", "   ", " > "}[form]
+	blank := []string{"", ">", ">", "", "", " >"}[form]
+	p0 := []int{0, 2, 1, 2, 3, 3}[form]
+	ordered := nondetBool()
+	k := vconcrete(nondetInt(0, 1))
+	d := 0
+	if nondetBool() {
+		d = -1
+	}
+	marker := "-"
+	if ordered {
+		marker = "7."
+	}
+	e := p0 + len(marker)
+	t := (e+k)/4*4 + 4
+	w := t - e
+	off := len(marker) + w // content offset of the item relative to the container
+	codeFirst := false
+	extra := 0
+	if w >= 5 {
+		off = len(marker) + 1
+		codeFirst = true
+		extra = w - 1 - 4
+	}
+	var doc []byte
+	doc = append(doc, prefix+marker...)
+	for i := 0; i < k; i++ {
+		doc = append(doc, ' ')
+	}
+	doc = append(doc, "\tfoo\n"+blank+"\n"+cont...)
+	for i := 0; i < off+d; i++ {
+		doc = append(doc, ' ')
+	}
+	doc = append(doc, "bar\n"...)
+	sp := func(n int) string {
+		s := ""
+		for i := 0; i < n; i++ {
+			s += " "
+		}
+		return s
+	}
+	lo, lc := "<ul>", "</ul>"
+	if ordered {
+		lo, lc = "<ol start=\"7\">", "</ol>"
+	}
+	var inner string
+	if d == 0 {
+		if codeFirst {
+			inner = lo + "<li><pre><code>" + sp(extra) + "foo\n</code></pre><p>bar</p></li>" + lc
+		} else {
+			inner = lo + "<li><p>foo</p><p>bar</p></li>" + lc
+		}
+	} else {
+		if codeFirst {
+			inner = lo + "<li><pre><code>" + sp(extra) + "foo\n</code></pre></li>" + lc
+		} else {
+			inner = lo + "<li>foo</li>" + lc
+		}
+		if rel := off + d; rel >= 4 {
+			inner += "<pre><code>" + sp(rel-4) + "bar\n</code></pre>"
+		} else {
+			inner += "<p>bar</p>"
+		}
+	}
+	var want string
+	switch form {
+	case 0:
+		want = inner
+	case 1, 2, 5:
+		want = "<blockquote>" + inner + "</blockquote>"
+	case 3:
+		want = "<ul><li>" + inner + "</li></ul>"
+	default:
+		want = "<ol><li>" + inner + "</li></ol>"
+	}
+	blocks, refs := Parse(cloneBytes(doc))
+	got := renderWith(&HTMLRenderer{ReferenceMap: refs}, blocks)
+	if !vsame(normHTML(got), normHTML([]byte(want))) {
+		vnote("doc=" + string(doc))
+		vnote("got=" + string(normHTML(got)))
+		vnote("want=" + string(normHTML([]byte(want))))
+	}
+	check(vsame(normHTML(got), normHTML([]byte(want))), "C06.marker-tab")
+	vdigest(got)
+}
